@@ -624,6 +624,15 @@ fn cases_for_string(s: &str, opts: u8) -> Vec<Case> {
             spans: vec![("sp".into(), vec![s.into()], vec![SpanStep { sets: vec![(s.into(), V::Bool(true))] }])],
             event: vec![("message".into(), V::Str("m".into()))],
         });
+        // ... and a later record on a span that already stores a field of that name
+        if s != "z" {
+            v.push(Case {
+                opts,
+                target: "tgt".into(),
+                spans: vec![("sp".into(), vec![s.into(), "z".into()], vec![SpanStep { sets: vec![(s.into(), V::Bool(true))] }, SpanStep { sets: vec![("z".into(), V::I64(1))] }])],
+                event: vec![("message".into(), V::Str("m".into()))],
+            });
+        }
     }
     v
 }
